@@ -16,7 +16,10 @@ Items == { [k |-> "bounds", ps |-> {"T", "U"}], [k |-> "bounds", ps |-> {"T"}], 
            [k |-> "skip_type_params", ps |-> {"T"}], [k |-> "skip_type_params", ps |-> {"U"}],
            [k |-> "capture_docs", valid |-> TRUE, val |-> "default"], [k |-> "capture_docs", valid |-> TRUE, val |-> "Always"],
            [k |-> "capture_docs", valid |-> TRUE, val |-> "never"], [k |-> "capture_docs", valid |-> FALSE, val |-> "sometimes"], [k |-> "crate"],
-           [k |-> "replace_segment"], [k |-> "unknown"] }
+           [k |-> "replace_segment"], [k |-> "unknown"],
+           \* the helper attribute in a form that is no parenthesised list: #[scale_info] and #[scale_info = ".."] (never accepted:
+           \* what is written in them is not one of the known items)
+           [k |-> "bare"], [k |-> "namevalue"] }
 \* bounds(..) whose predicates mention T without bounding it: T stays unbound
 IndirectItems == { [k |-> "bounds", ps |-> {}, other |-> <<"assoc">>], [k |-> "bounds", ps |-> {"U"}, other |-> <<"assoc">>],
                    [k |-> "bounds", ps |-> {"U"}, other |-> <<"qassoc", "vec">>], [k |-> "bounds", ps |-> {"U"}, other |-> <<"arr", "lifetime">>], [k |-> "bounds", ps |-> {"T", "U"}, other |-> <<"assoc">>] }
